@@ -346,6 +346,7 @@ struct Options {
   long seed = 0;
   int shard = 0, nshard = 1;
   int timeout_s = 30;
+  long deadline = 0;  // wall-clock second after which no further execution is started (0 = none)
   bool ops = true;
 };
 
@@ -581,6 +582,7 @@ void Emit(FILE *out, const Program &prog, long idx, const RunResult &r)
 }
 
 struct Stats { long execs = 0, truncated = 0; };
+bool Late(const Options &opt) { return opt.deadline != 0 && time(nullptr) > opt.deadline; }
 
 
 void Explore(const Program &prog, Driver &drv, const Options &opt, FILE *out, Stats &st)
@@ -612,7 +614,7 @@ void Explore(const Program &prog, Driver &drv, const Options &opt, FILE *out, St
   }
   if (opt.mode == "random") {
     int runaway = 0;
-    for (long k = 0; k < opt.max_exec && runaway < kMaxRunaway && g_out_bytes <= kMaxOutBytes; ++k) {
+    for (long k = 0; k < opt.max_exec && runaway < kMaxRunaway && g_out_bytes <= kMaxOutBytes && !Late(opt); ++k) {
       auto r = RunOnce(prog, drv, {}, opt, static_cast<uint64_t>(opt.seed) * 1000003ULL + k * 7919ULL + std::hash<std::string>{}(prog.name));
       Emit(out, prog, idx++, r);
       st.execs++;
@@ -627,7 +629,7 @@ void Explore(const Program &prog, Driver &drv, const Options &opt, FILE *out, St
   queue.emplace_back();
   int runaway = 0;
   while (!queue.empty()) {
-    if (idx >= opt.max_exec || runaway >= kMaxRunaway || g_out_bytes > kMaxOutBytes) { st.truncated++; break; }
+    if (idx >= opt.max_exec || runaway >= kMaxRunaway || g_out_bytes > kMaxOutBytes || Late(opt)) { st.truncated++; break; }
     auto prefix = std::move(queue.front());
     queue.pop_front();
     auto r = RunOnce(prog, drv, prefix, opt, 0);
@@ -674,6 +676,7 @@ int Main(int argc, char **argv, Driver &drv)
     else if (a == "--max-exec") opt.max_exec = atol(next().c_str());
     else if (a == "--seed") opt.seed = atol(next().c_str());
     else if (a == "--timeout") opt.timeout_s = atoi(next().c_str());
+    else if (a == "--deadline") opt.deadline = atol(next().c_str());
     else if (a == "--shard") { auto s = next(); sscanf(s.c_str(), "%d/%d", &opt.shard, &opt.nshard); }
     else { fprintf(stderr, "unknown option %s\n", a.c_str()); return 2; }
   }
@@ -691,6 +694,7 @@ int Main(int argc, char **argv, Driver &drv)
   while (std::getline(in, line)) {
     if (line.empty() || line[0] == '#') continue;
     if ((k++ % opt.nshard) != opt.shard) continue;
+    if (Late(opt)) { st.truncated++; continue; }
     Program p = ParseProgram(line);
     Explore(p, drv, opt, out, st);
     nprog++;
